@@ -41,6 +41,26 @@ func monC01() mc.Monitor {
 				out = append(out, v("C01", "node-overcommit", "negative-available", "node %s available %s is negative without any externally forced change (after %s)", n, node.Available, st.Op))
 			}
 		}
+		// ---- what a node counts as occupied is what the shim last reported for the foreign pods on it
+		for _, n := range sortedKeys(post.Nodes) {
+			want := Res{}
+			for _, fk := range sortedKeys(post.Shim.Foreign) {
+				if post.Shim.Foreign[fk] != n {
+					continue
+				}
+				if fs := scn.ForeignSpec(fk); fs != nil {
+					if post.Shim.ForeignV[fk] == 2 {
+						want = want.Add(fs.Res2)
+					} else {
+						want = want.Add(fs.Res)
+					}
+				}
+			}
+			counts["C01.node-occupied-vs-shim"]++
+			if !want.Equal(post.Nodes[n].Occupied) {
+				out = append(out, v("C01", "node-occupied-vs-reported", "foreign", "node %s counts %s as occupied, the foreign allocations the shim last reported for it add up to %s (after %s)", n, post.Nodes[n].Occupied, want, st.Op))
+			}
+		}
 		// ---- step rule: every binding the scheduler itself charged to a node in a scheduling cycle
 		if st.Op.K != "SCHEDULE" {
 			return out
